@@ -275,8 +275,8 @@ func checkCustomQuery(w *World, r *Result) {
 			return true
 		}
 		ast.Inspect(rs.Body, func(y ast.Node) bool {
-			call, ok := y.(*ast.CallExpr)
-			if !ok || !isSprintf(info, &call) || len(call.Args) != 2 {
+			call := sprintfView(info, y)
+			if call == nil || len(call.Args) != 2 {
 				return true
 			}
 			tv := info.Types[call.Args[0]]
